@@ -64,6 +64,8 @@ type World struct {
 	// Root is the uncached context of the working state after block 1 was committed; header is
 	// that of block 2 (not yet begun).  Never written to: all exploration happens in cache layers.
 	Root sdk.Context
+	// BlockOverride, when set, replaces Block (the twin engine advances by real FinalizeBlock+Commit).
+	BlockOverride func(ctx sdk.Context, dh int64, dt time.Duration) (sdk.Context, BlockResult)
 }
 
 var worldSeq int64
@@ -272,6 +274,9 @@ func (w *World) BeginBlock(ctx sdk.Context, dh int64, dt time.Duration) (next sd
 
 // Block = EndBlock of the current block, header advance, BeginBlock of the next one.
 func (w *World) Block(ctx sdk.Context, dh int64, dt time.Duration) (sdk.Context, BlockResult) {
+	if w.BlockOverride != nil {
+		return w.BlockOverride(ctx, dh, dt)
+	}
 	var br BlockResult
 	br.EndEvents, br.Halt = w.EndBlock(ctx)
 	if br.Halt != "" {
